@@ -48,6 +48,9 @@ func setPropsFromMapRecursive(val reflect.Value, updates map[string]any) (staged
 			field := typ.Field(i)
 			fieldVal := val.Field(i)
 
+			if !field.IsExported() {
+				continue
+			}
 			jsonTag, _ := field.Tag.Lookup("json")
 			if jsonTag != key {
 				continue
@@ -55,18 +58,8 @@ func setPropsFromMapRecursive(val reflect.Value, updates map[string]any) (staged
 
 			found = true
 			if fieldVal.Kind() == reflect.Struct {
-				// If the value is a map, it's a nested update
-				if nestedUpdates, ok := value.(map[string]any); ok {
-					nestedStaged, err := setPropsFromMapRecursive(fieldVal.Addr(), nestedUpdates)
-					stagedProps = append(stagedProps, nestedStaged...)
-					if err != nil {
-						// Also return what has been staged so far, so that the caller can discard it
-						return stagedProps, err
-					}
-					break
-				}
-
-				// Check if it's a ConfigProp
+				// A setting decodes its own value, whatever shape was sent: an object for a scalar setting is
+				// ill-typed. (Looking for "nested updates" inside a setting walked into its unexported fields.)
 				if fieldVal.CanAddr() {
 					fieldAddr := fieldVal.Addr()
 					if prop, ok := fieldAddr.Interface().(StagedConfigProp); ok {
@@ -82,6 +75,17 @@ func setPropsFromMapRecursive(val reflect.Value, updates map[string]any) (staged
 						stagedProps = append(stagedProps, prop)
 						break
 					}
+				}
+
+				// Otherwise it is a section: a map is a nested update
+				if nestedUpdates, ok := value.(map[string]any); ok {
+					nestedStaged, err := setPropsFromMapRecursive(fieldVal.Addr(), nestedUpdates)
+					stagedProps = append(stagedProps, nestedStaged...)
+					if err != nil {
+						// Also return what has been staged so far, so that the caller can discard it
+						return stagedProps, err
+					}
+					break
 				}
 			}
 			break
